@@ -263,6 +263,8 @@ func runC13(c *mon.Ctx) {
 			} else if gv, _, e := ref.Parse(got.Content()); e != nil || !ref.Equal(gv, body) {
 				c.Failf("verify:reports-other-body", "accepted request reports body %q, signed %s", got.Content(), gen.Describe(body))
 			}
+			// what an accepted request reports stays what it is while later requests are verified
+			c.Retain("verify", "the body reported for an accepted request", got.Content())
 			// legal re-spellings of the header must still verify
 			respell := map[string]string{
 				"reordered":     fmt.Sprintf("X-Matrix sig=\"%s\",destination=\"%s\",origin=\"%s\",key=\"%s\"", xm.sig, xm.dest, xm.origin, xm.key),
